@@ -238,7 +238,68 @@ class NegateAndSwap(ast.NodeTransformer):
         return node
 
 
+_PURE_CALLS = {'len', 'list', 'set', 'dict', 'tuple', 'sorted', 'sum', 'min', 'max', 'int', 'float', 'str', 'bool', 'abs'}
+
+
+def _pure(e: ast.AST) -> bool:
+    for n in ast.walk(e):
+        if isinstance(n, ast.Call) and not (isinstance(n.func, ast.Name) and n.func.id in _PURE_CALLS):
+            return False
+        if isinstance(n, (ast.Yield, ast.YieldFrom, ast.Await, ast.NamedExpr, ast.Lambda)):
+            return False
+    return True
+
+
+def _simple_assign(st) -> bool:
+    return isinstance(st, ast.Assign) and len(st.targets) == 1 and isinstance(st.targets[0], ast.Name) and _pure(st.value)
+
+
+def independent(a, b) -> bool:
+    """two plain assignments to different locals, neither reading the other's target, both with pure right-hand sides"""
+    if not (_simple_assign(a) and _simple_assign(b)):
+        return False
+    ta, tb = a.targets[0].id, b.targets[0].id
+    ra = {n.id for n in ast.walk(a.value) if isinstance(n, ast.Name)}
+    rb = {n.id for n in ast.walk(b.value) if isinstance(n, ast.Name)}
+    return ta != tb and ta not in rb and tb not in ra
+
+
+class SwapIndependent(ast.NodeTransformer):
+    """adjacent independent plain assignments to locals (pure right-hand sides) are swapped"""
+
+    def __init__(self):
+        self.depth = 0
+
+    def visit_FunctionDef(self, node):
+        self.depth += 1
+        self.generic_visit(node)
+        self.depth -= 1
+        return node
+
+    def visit_ClassDef(self, node):
+        saved, self.depth = self.depth, 0
+        self.generic_visit(node)
+        self.depth = saved
+        return node
+
+    def generic_visit(self, node):
+        super().generic_visit(node)
+        if self.depth:
+            for field in ('body', 'orelse', 'finalbody'):
+                v = getattr(node, field, None)
+                if isinstance(v, list) and v and isinstance(v[0], ast.stmt):
+                    i = 0
+                    while i + 1 < len(v):
+                        if independent(v[i], v[i + 1]):
+                            v[i], v[i + 1] = v[i + 1], v[i]
+                            i += 2
+                        else:
+                            i += 1
+        return node
+
+
 TRANSFORMS = {
+    'swap-independent': lambda: SwapIndependent(),
     'else-after-jump': lambda: ElseAfterJump(),
     'negate-and-swap': lambda: NegateAndSwap(),
     'return-via-local': lambda: ReturnViaLocal(),
